@@ -1,1 +1,235 @@
 //! Shared helpers for the harnesses.
+use rpki::resources::addr::{MaxLenPrefix, Prefix};
+use std::hash::{Hash, Hasher};
+use std::net::{IpAddr, Ipv4Addr, Ipv6Addr};
+
+/// A deterministic, loop-cheap hasher: distinguishes the byte sequences fed
+/// to it well enough that "equal values hash equally" is a meaningful check
+/// and is cheap for the solver (rotate + xor, no multiplication).
+pub struct RotHasher(pub u64);
+
+impl Hasher for RotHasher {
+    fn write(&mut self, bytes: &[u8]) {
+        for b in bytes {
+            self.0 = self.0.rotate_left(7) ^ (*b as u64);
+        }
+        self.0 = self.0.rotate_left(3) ^ 0xA5;
+    }
+    fn finish(&self) -> u64 {
+        self.0
+    }
+}
+
+pub fn hash_of<T: Hash>(t: &T) -> u64 {
+    let mut h = RotHasher(0x9E37_79B9);
+    t.hash(&mut h);
+    h.finish()
+}
+
+/// The reference view of a prefix: family, length and the inclusive range of
+/// addresses it denotes, computed in the harness from (address, length) only
+/// with plain integer arithmetic.  IPv4 addresses are kept in the low 32 bits.
+#[derive(Clone, Copy)]
+pub struct RefPrefix {
+    pub v4: bool,
+    pub len: u8,
+    pub lo: u128,
+    pub hi: u128,
+}
+
+pub fn host_mask_v4(len: u8) -> u32 {
+    if len >= 32 { 0 } else { u32::MAX >> len }
+}
+
+pub fn host_mask_v6(len: u8) -> u128 {
+    if len >= 128 { 0 } else { u128::MAX >> len }
+}
+
+/// An arbitrary valid prefix together with its reference view.  Built
+/// through the public strict constructors from an arbitrary network address
+/// whose host bits the harness cleared itself.
+pub fn any_prefix() -> (Prefix, RefPrefix) {
+    let v4: bool = kani::any();
+    let len: u8 = kani::any();
+    if v4 {
+        kani::assume(len <= 32);
+        let a: u32 = kani::any();
+        let lo = a & !host_mask_v4(len);
+        let p = Prefix::new_v4(Ipv4Addr::from(lo), len).unwrap();
+        (p, RefPrefix { v4, len, lo: lo as u128,
+                        hi: (lo | host_mask_v4(len)) as u128 })
+    } else {
+        kani::assume(len <= 128);
+        let a: u128 = kani::any();
+        let lo = a & !host_mask_v6(len);
+        let p = Prefix::new_v6(Ipv6Addr::from(lo), len).unwrap();
+        (p, RefPrefix { v4, len, lo, hi: lo | host_mask_v6(len) })
+    }
+}
+
+/// An arbitrary valid max-length prefix (None or len <= m <= family max).
+pub fn any_maxlen_prefix() -> (MaxLenPrefix, RefPrefix, Option<u8>) {
+    let (p, r) = any_prefix();
+    let ml: Option<u8> = kani::any();
+    if let Some(m) = ml {
+        kani::assume(m >= r.len && m <= if r.v4 { 32 } else { 128 });
+    }
+    (MaxLenPrefix::new(p, ml).unwrap(), r, ml)
+}
+
+pub fn addr_to_u128(a: IpAddr) -> u128 {
+    match a {
+        IpAddr::V4(a) => u32::from(a) as u128,
+        IpAddr::V6(a) => u128::from(a),
+    }
+}
+
+//------------ async driver ----------------------------------------------------
+
+use std::future::Future;
+use std::io;
+use std::pin::{pin, Pin};
+use std::task::{Context, Poll, Waker};
+use tokio::io::{AsyncRead, ReadBuf};
+
+/// Polls a future to completion with a no-op waker, at most `max_polls`
+/// times.  This is the whole executor: single-threaded, every poll order is
+/// "poll again".  `None` means the future was still pending.
+pub fn block_on<F: Future>(f: F, max_polls: usize) -> Option<F::Output> {
+    let mut f = pin!(f);
+    let waker = Waker::noop();
+    let mut cx = Context::from_waker(&waker);
+    let mut i = 0;
+    while i < max_polls {
+        if let Poll::Ready(v) = f.as_mut().poll(&mut cx) {
+            return Some(v);
+        }
+        i += 1;
+    }
+    None
+}
+
+/// An in-memory stream that hands out its bytes in solver-chosen pieces.
+///
+/// * each `poll_read` delivers between 1 and `min(buffer space, bytes left)`
+///   bytes, the number being a fresh symbolic value (so every fragmentation
+///   of the stream is covered), or -- while `pending_left > 0` -- may return
+///   `Pending` instead (solver's choice);
+/// * at end of stream it reports EOF (0 bytes).  A reader that keeps reading
+///   after EOF is spinning: the fourth read after EOF panics ("reader spins
+///   on a closed stream"), which also cuts the path for the model checker.
+pub struct ChunkReader<'a> {
+    pub data: &'a [u8],
+    pub pos: usize,
+    pub eof_reads: u32,
+    pub pending_left: u8,
+    pub fragment: bool,
+    pub reads: u32,
+}
+
+impl<'a> ChunkReader<'a> {
+    pub fn new(data: &'a [u8], fragment: bool, pending: u8) -> Self {
+        ChunkReader { data, pos: 0, eof_reads: 0, pending_left: pending,
+                      fragment, reads: 0 }
+    }
+    pub fn consumed(&self) -> usize {
+        self.pos
+    }
+}
+
+impl AsyncRead for ChunkReader<'_> {
+    fn poll_read(
+        mut self: Pin<&mut Self>, _cx: &mut Context<'_>,
+        buf: &mut ReadBuf<'_>,
+    ) -> Poll<io::Result<()>> {
+        if self.pending_left > 0 && kani::any() {
+            self.pending_left -= 1;
+            return Poll::Pending;
+        }
+        self.reads += 1;
+        let left = self.data.len() - self.pos;
+        let room = buf.remaining();
+        if left == 0 || room == 0 {
+            if left == 0 && room > 0 {
+                self.eof_reads += 1;
+                if self.eof_reads > 3 {
+                    panic!("reader spins on a closed stream");
+                }
+            }
+            return Poll::Ready(Ok(()));
+        }
+        let max = if left < room { left } else { room };
+        // fragment mode: the solver chooses between "one byte" and "all that
+        // fits" for every single read (copies of concrete size 1 or of the
+        // natural size); sequences of such choices generate every
+        // fragmentation whose pieces are single bytes or run to a read
+        // boundary of the consumer.
+        let n = if self.fragment && kani::any() { 1 } else { max };
+        let pos = self.pos;
+        buf.put_slice(&self.data[pos..pos + n]);
+        self.pos += n;
+        Poll::Ready(Ok(()))
+    }
+}
+
+/// A bounded in-memory sink (AsyncWrite) that copies byte by byte into a
+/// fixed array; always ready, never short.
+pub struct ArrayWriter<const N: usize> {
+    pub buf: [u8; N],
+    pub len: usize,
+}
+
+impl<const N: usize> ArrayWriter<N> {
+    pub fn new() -> Self {
+        ArrayWriter { buf: [0u8; N], len: 0 }
+    }
+    pub fn bytes(&self) -> &[u8] {
+        &self.buf[..self.len]
+    }
+}
+
+impl<const N: usize> tokio::io::AsyncWrite for ArrayWriter<N> {
+    fn poll_write(
+        mut self: Pin<&mut Self>, _cx: &mut Context<'_>, src: &[u8],
+    ) -> Poll<io::Result<usize>> {
+        let mut i = 0;
+        while i < src.len() {
+            assert!(self.len < N, "harness sink too small");
+            let l = self.len;
+            self.buf[l] = src[i];
+            self.len += 1;
+            i += 1;
+        }
+        Poll::Ready(Ok(src.len()))
+    }
+    fn poll_flush(self: Pin<&mut Self>, _cx: &mut Context<'_>)
+        -> Poll<io::Result<()>> {
+        Poll::Ready(Ok(()))
+    }
+    fn poll_shutdown(self: Pin<&mut Self>, _cx: &mut Context<'_>)
+        -> Poll<io::Result<()>> {
+        Poll::Ready(Ok(()))
+    }
+}
+
+//------------ loop-free byte helpers -------------------------------------------
+// (slice `==` is a memcmp loop under CBMC; these keep harnesses loop-free so
+// that the global unwind bound only has to cover the loops of the code under
+// verification)
+
+pub fn be16(b: &[u8], o: usize) -> u16 {
+    u16::from_be_bytes([b[o], b[o + 1]])
+}
+pub fn be32(b: &[u8], o: usize) -> u32 {
+    u32::from_be_bytes([b[o], b[o + 1], b[o + 2], b[o + 3]])
+}
+pub fn be64(b: &[u8], o: usize) -> u64 {
+    ((be32(b, o) as u64) << 32) | be32(b, o + 4) as u64
+}
+pub fn be128(b: &[u8], o: usize) -> u128 {
+    ((be64(b, o) as u128) << 64) | be64(b, o + 8) as u128
+}
+/// Equality of 20 bytes starting at `o` with `k`, loop-free.
+pub fn eq20(b: &[u8], o: usize, k: &[u8; 20]) -> bool {
+    be128(b, o) == be128(k, 0) && be32(b, o + 16) == be32(k, 16)
+}
